@@ -100,7 +100,8 @@ func walk[S, T any](ctx context.Context, g *graph[S], t *traversal[S, T]) error 
 			select {
 			case <-ctx.Done():
 				verifYield("coord.ctxdone", "")
-				return nil
+				// services may be left unvisited: the walk does not end with nil (a visitor's error, if any, came first)
+				return ctx.Err()
 			case node := <-nodeCh:
 				verifYield("coord.recv", node.key)
 				expect--
